@@ -103,7 +103,9 @@ def handle_path_command(args: argparse.Namespace) -> None:  # noqa: PLR0912, D10
     if args.query is not None:
         query = args.query
     else:
-        query = args.query_file.read().strip()
+        # Remove surrounding JSONPath blank space only. Other Unicode white space
+        # is not insignificant in a query.
+        query = args.query_file.read().strip(" \t\r\n")
 
     try:
         path = jsonpath.JSONPathEnvironment().compile(query)
